@@ -24,8 +24,8 @@ from vlib.evidence import Result
 PROPERTY = "C06"
 LEVEL = "model_checking"
 BOUNDS = {
-    "quick": "part 1: all histories of length <=3 over 9 operations from every handle, 7 builders x source lengths 0..3 (+ infinite), and 9 builders x lengths 2..3 x a producer throwing (once | always) at every source index; part 2: 8 scenarios, preemption bound 3 (2 for 3 threads); part 3: 40 forced-order scenarios",
-    "thorough": "part 1: length <=5 (<=4 with throwing producers); part 2: preemption bound 4 (3 for 3 threads); part 3: 120 scenarios",
+    "quick": "part 1: all histories of length <=3 over 9 operations from every handle, 7 builders x source lengths 0..3 (+ infinite), and 9 builders x lengths 2..3 x a producer throwing (once | always) at every source index; part 2: 8 scenarios, preemption bound 3 (2 for 3 threads); part 3: 90 forced-order scenarios (6 shapes incl. an inner lazy seq shared between a direct consumer and an outer cell x 3 ways of releasing the GIL x 5 operations)",
+    "thorough": "part 1: length <=5 (<=4 with throwing producers); part 2: preemption bound 4 (3 for 3 threads); part 3: 180 scenarios (x 10 operations)",
 }
 RULE = (
     "part 1: breadth-first over histories of (handle, operation) on real lazy seqs with instrumented producers; part 2: every schedule within the bound on real threads "
@@ -562,10 +562,12 @@ ways = {
   "cpu": lambda ev: sum(i*i for i in range(300000)),
 }
 opsB = ["first", "rest", "next", "seq", "count", "vec", "is_realized", "iter", "with_meta", "nth"]
-shapes = ["direct", "nested-lazy", "pyiter", "concat"]
+shapes = ["direct", "nested-lazy", "shared-inner", "shared-inner-rev", "pyiter", "concat"]
 import itertools
-scen = list(itertools.product(shapes, ways, opsB))[:n_scen]
+# n_scen = number of B operations used (a prefix of opsB): every shape x way is covered in both tiers
+scen = list(itertools.product(shapes, ways, opsB[:n_scen]))
 sys.setswitchinterval(1e-5)
+print(json.dumps({"ready": True}), flush=True)
 for k, (shape, way, opb) in enumerate(scen):
     entered, release = threading.Event(), threading.Event()
     def producer():
@@ -580,11 +582,21 @@ for k, (shape, way, opb) in enumerate(scen):
         def gen():
             entered.set(); ways[way](release); yield 1; yield 2
         s = core("iterator-seq")(gen())
+    elif shape == "shared-inner":
+        # the producer's seq is reachable on its own AND is what another lazy seq's producer returns:
+        # A realizes it directly, B comes in through the outer cell (and must wait for the inner cell's lock)
+        sA = lseq.LazySeq(producer)
+        s = lseq.LazySeq(lambda sA=sA: sA)
+    elif shape == "shared-inner-rev":
+        s = lseq.LazySeq(producer)
+        sA = lseq.LazySeq(lambda s=s: s)
     else:
         s = core("concat")(lseq.LazySeq(producer), [3])
+    if not shape.startswith("shared-inner"):
+        sA = s
     out = {}
-    def A():
-        out["A"] = list(core("take")(2, s))
+    def A(sA=sA):
+        out["A"] = list(core("take")(2, sA))
     def B():
         entered.wait(5)
         f = {"first": lambda: core("first")(s), "rest": lambda: core("first")(core("rest")(s)), "next": lambda: core("first")(core("next")(s)),
@@ -611,15 +623,34 @@ def part3(args):
     p = subprocess.Popen([sys.executable, "-c", PART3_CHILD, str(env.VERIF), str(n_scen)], stdout=subprocess.PIPE, stderr=subprocess.DEVNULL, text=True, env=envv)
     import select
 
+    def cpu_ticks():
+        try:
+            f = open(f"/proc/{p.pid}/stat").read().rsplit(")", 1)[1].split()
+            return int(f[11]) + int(f[12])  # utime + stime of the whole process (all threads)
+        except Exception:
+            return -1
+
     last = None
     done = False
+    ready = False
+    ticks = cpu_ticks()
     while True:
-        r, _, _ = select.select([p.stdout], [], [], 60.0)
+        # Between two scenario reports at most ~35 s can pass on a live interpreter (two joins of 15 s); the window is 60 s,
+        # stretched by the machine's oversubscription so that a slow child is not mistaken for a frozen one.
+        over = max(1.0, os.getloadavg()[0] / (os.cpu_count() or 1))
+        r, _, _ = select.select([p.stdout], [], [], 60.0 * min(over, 10.0))
         if not r:
-            # no heartbeat for 60 s: the interpreter is frozen (a thread blocked on the cell mutex while holding the GIL)
+            now = cpu_ticks()
+            if not ready and now >= 0 and ticks >= 0 and now - ticks >= 20:
+                # still bootstrapping (single-threaded, CPU-bound): consuming CPU means alive.  Not usable once the scenario
+                # threads exist: threads waiting for a GIL that is never released wake up every switch interval.
+                ticks = now
+                continue
+            # the interpreter is frozen (a thread blocked on the cell mutex while holding the GIL)
             p.kill()
-            res.fail("whole-interpreter-freeze", {"part": 3, "after_scenario": last}, detail="no heartbeat for 60 s")
+            res.fail("whole-interpreter-freeze", {"part": 3, "after_scenario": last}, detail="no heartbeat for 60 s (x oversubscription factor)")
             break
+        ticks = cpu_ticks()
         line = p.stdout.readline()
         if not line:
             break
@@ -630,6 +661,9 @@ def part3(args):
         if d.get("done"):
             done = True
             break
+        if d.get("ready"):
+            ready = True
+            continue
         last = d["scenario"]
         res.evaluations += 1
         res.transitions += 2
@@ -661,7 +695,7 @@ def run(tier, seed):
     import threading
 
     box = {}
-    t3 = threading.Thread(target=lambda: box.setdefault("r", part3((40 if tier == "quick" else 120,))))
+    t3 = threading.Thread(target=lambda: box.setdefault("r", part3((5 if tier == "quick" else 10,))))
     t3.start()
     for r in env.parallel(part1_shard, jobs1):
         res.merge(r)
@@ -700,7 +734,7 @@ def replay(failure):
             if f["kind"] == failure["kind"]:
                 return f
         return None
-    r = part3((40,))
+    r = part3((10,))
     for f in r.failures:
         if f["kind"] == failure["kind"]:
             return f
